@@ -350,4 +350,31 @@ PROPS = {
                  "distinct_nontrivial = runs in which a chain task actually hit its unrecoverable failure."),
         "trusted": ['C10-C13: the chain task and controller actions are a hand-written model (Model/Controller.lean): one loop iteration is one atomic step (justified: everything before the record part is chain-local and the trace mutex is held across record+progress); channels are FIFO lists; rayon scheduling, mpsc and Mutex internals, OS threads and timeouts are NOT modelled -- they are exercised by the real-sampler runs under seeded schedule perturbation, which sample interleavings rather than enumerate them', "C10-C13: tie = every chain task's event log (hook chain_event: task start, message seen at each loop top, blocking receive, draw, record, slot-gone, end) is replayed through the model's chainStep by the Lean driver and must be a run of the model"],
     },
+    "C05": {
+        "gen": [],
+        "thm_module": "NutsModel.Thm.C05",
+        "namespace": "NutsModel.C05",
+        "theorems": ["all_kinds", "leap_classification", "good_is_ok", "unrecoverable_is_err", "trajectory_fault_diverges",
+                     "trajectory_zero_grad_fine", "trial_fault_discarded", "bad_initial_point_rejected", "init_untransformed_rejects",
+                     "set_position_outcomes", "nonfatal_fault_never_fails_partial", "reinit_fault_is_err"],
+        "harness": "C05",
+        "level": "proof",
+        "rule": ("FAULT ENUMERATION on real chains (Settings::new_chain, Chain::set_position, Chain::expanded_draw, each call under "
+                 "catch_unwind): for Diag / LowRank / Flow NUTS x Euclidean / ExactNormal kinetic energy x dual averaging / Adam / fixed "
+                 "step size (quick: a third of the 18 combinations chosen by the seed; thorough: all) a reference run is recorded, then one "
+                 "run for EVERY evaluation index k of that run (set_position: initial evaluations and every step-size-search trial; every "
+                 "leapfrog of every warmup and sampling draw; the step-size re-initialisation) x EVERY fault kind (recoverable, unrecoverable, "
+                 "NaN / +inf / -inf log-density, NaN / inf gradient, zero gradient component), plus random pairs of faults; plus fixed-step "
+                 "runs beyond the stability limit for genuine energy-error divergences. Direct oracle: no panic; an unrecoverable error "
+                 "makes exactly that call return Err; any other fault inside a trajectory gives Ok + diverging + divergence_message; a fault "
+                 "in a step-size-search trial leaves the call Ok; every returned draw has a finite position whose density equals the reported "
+                 "finite logp bit-for-bit (i.e. it is a state that was evaluated successfully), finite positive step size, for all later draws "
+                 "too. The role of the faulted evaluation is recovered from the evaluation log and each (call, role, kind, outcome) class is "
+                 "replayed against Model/Faults.lean. distinct_nontrivial = faulted runs whose fault hit a trajectory leapfrog."),
+        "trusted": [
+            "C05: Model/Faults.lean abstracts an evaluation to (error kind | logp finite, gradient finite, gradient non-zero); that a non-finite log-density or gradient makes the leapfrog's energy error non-finite or too large is IEEE arithmetic, assumed by the model and exercised at every evaluation index by the enumeration",
+            "C05: the table fault kind x role is finite and decided completely; 'every position of the fault, any number of faults, runs of any length' is carried by the tree theorems (Thm/C03, Thm/C05Tree: for every orbit) -- the tie of the tree model to nuts::draw under scripted divergences/errors is C01/C03's correspondence",
+            "C05: MCLMC retry-with-smaller-step is covered by C18; estimator guards against invalid variances by C08",
+        ],
+    },
 }
